@@ -35,74 +35,7 @@ META = dict(
 LABELS = [("A", "B"), ("Xe", "O"), ("Si", "Si")]
 
 
-class IntCore(object):
-  """a potential written by a user as `if r < thr: return 0` (a python int, not a float) and a float elsewhere"""
-
-  def __init__(self, u, du, thr):
-    self.u, self.du, self.thr = u, du, thr
-
-  def __call__(self, r):
-    if r < self.thr:
-      return 0
-    return self.u(r)
-
-  def deriv(self, r):
-    if r < self.thr:
-      return 0
-    return self.du(r)
-
-
-def replay_intcore(nr, npots, derivs, labels, w, route):
-  """concrete: potential 0 returns the int 0 below the witness threshold"""
-  import atsim.potentials as ap
-  from atsim.potentials import Potential
-  from atsim.potentials.pair_tabulation import DLPoly_PairTabulation
-  cutoff = common._cutoff_from(w)
-  try:
-    thr = float(w.get("thr"))
-  except Exception:  # noqa
-    thr = 1.5 * cutoff / (nr - 4)
-  gen = common.gen_functions(npots)
-  mf = w.get("#functions", {}) if isinstance(w, dict) else {}
-  last = None
-  for what in ("model functions", "generic functions"):
-    fs = []
-    for p in range(npots):
-      f, d = gen[p]
-      if what == "model functions":
-        if ("U%d" % p) not in mf:
-          fs = None
-          break
-        f = mf["U%d" % p]
-        d = mf.get("d_U%d" % p) or common._stencil(f, 1e-6)
-      fs.append((f, d))
-    if fs is None:
-      continue
-    pots, spec = [], []
-    for p in range(npots):
-      f, d = fs[p]
-      a, b = labels[p]
-      if p == 0:
-        pots.append(Potential(a, b, IntCore(f, d, thr)))
-        spec.append((a, b, (lambda r, f=f: 0.0 if r < thr else f(r)), (lambda r, d=d: 0.0 if r < thr else d(r))))
-      else:
-        pots.append(Potential(a, b, common._WithDeriv(f, d) if derivs[p] else f))
-        spec.append((a, b, f, d if derivs[p] else common._stencil(f, 1e-6)))
-    out = io.StringIO()
-    try:
-      if route == "class":
-        DLPoly_PairTabulation(pots, cutoff, nr).write(out)
-      else:
-        ap.writePotentials("DL_POLY", pots, cutoff, nr, out)
-      bad = common.compare_dlpoly(out.getvalue(), spec, cutoff, nr)
-    except Exception as e:  # noqa
-      bad = ["writer raised %s: %s" % (type(e).__name__, e)]
-    rec = dict(kind="pair_api_intcore", target="DL_POLY", nr=nr, npots=npots, derivs=list(derivs), labels=labels, cutoff=cutoff, thr=thr, route=route,
-               functions=what, mismatches=bad[:10])
-    last = (bool(bad), ("[%s; potential 0 returns the int 0 for r < %r] " % (what, thr)) + ("; ".join(bad[:4]) or "output agrees with the specification at cutoff=%r" % cutoff), rec)
-    if bad:
-      return last
-  return last
+IntCore = common.IntCore
 
 
 def api_case(nr, npots, derivs, route, intcore=False):
@@ -173,7 +106,7 @@ def api_case(nr, npots, derivs, route, intcore=False):
 
   def replay(v, w, path, structural):
     if intcore:
-      return replay_intcore(nr, npots, derivs, labels, w, route)
+      return common.replay_pair_intcore("DL_POLY", nr, npots, derivs, labels, w, route)
     return common.replay_pair_table("DL_POLY", nr, npots, derivs, labels, w, route)
 
   explore_and_check(res, fn, build, replay=replay, negative=lambda p: build(p, wrong=True))
